@@ -54,6 +54,7 @@ ASSUMPTIONS = [
 ]
 
 PERIODS = [4.3, 5.7, 7.31, 9.5, 11.13, 13.9, 17.37, 23.71, 29.3, 37.9, 47.45, 60.5]
+PERIODS_LONG = [23.71, 26.9, 33.1, 37.9, 47.45, 52.3, 60.5]
 
 
 # ----------------------------------------------------------------------------------------------------------------
@@ -152,9 +153,13 @@ def _window(draw, T, kept):
 @st.composite
 def _detector(draw, i, n, T, kind=None):
     kind = kind or draw(st.sampled_from(["phasor", "phasor", "plane", "closed"]))
+    stride = draw(st.sampled_from(["auto", 1, 2, "auto", 3, 4, 5, "auto", 2, 3]))
+    # 'auto' = floor(period_min / 12): draw long periods there, so that the derived stride is > 1 and sensitive to
+    # the oversampling constant
+    pool = PERIODS_LONG if stride == "auto" and draw(st.integers(0, 4)) > 0 else PERIODS
     d = {"name": f"d{i}", "kind": kind,
-         "periods": sorted(draw(st.sets(st.sampled_from(PERIODS), min_size=1, max_size=3))),
-         "stride": draw(st.sampled_from([1, 2, 3, 4, 5, "auto", "auto", 2, 3])),
+         "periods": sorted(draw(st.sets(st.sampled_from(pool), min_size=1, max_size=3))),
+         "stride": stride,
          "switch": draw(_switch(T)), "scaling": draw(st.sampled_from(["continuous", "pulse"]))}
     kept = scenes.switch_on_steps(d["switch"], T)[::resolve_stride(d["stride"], d["periods"])]
     d["window"] = draw(_window(T, kept))
